@@ -11,7 +11,8 @@ RULE = ("pairs (P1, P2) over disjoint name spaces: P1 from a pool that exits con
         "break/continue, calls inside loops, allocation-heavy code, a located runtime error) plus random programs. "
         "Three runs per pair: P1, P2, P1;P2. Metamorphic oracle on the implementation: out(P1;P2) = out(P1) ++ out(P2), "
         "same end status, error line shifted by the line count of P1; each run is also compared with the Lean model. "
-        "Non-trivial: P1 leaves at least one construct early.")
+        "Non-trivial: P1 leaves at least one construct early."
+        ' Multiline-literal pairs: P1 written with literals / comments that span lines (ending in a line break, CR LF) x P2 with a located error.')
 ASSUMPTIONS = ["P1 terminates normally by construction (checked: pairs whose P1 fails are skipped and counted)"]
 default_compare = lambda m, i: C.compare_run(m, i, line=True)
 
@@ -165,6 +166,26 @@ def cases(rng, tier, stats):
             continue
         lines = [run_req(s1, spec=1), run_req(s2, spec=1), run_req(s1 + s2, spec=1)]
         out.append(C.Case("compose", lines, cmp_run(line=True), compose_oracle, info={"p1": s1, "p2": s2, "p1_lines": s1.count("\n")}))
+    # P1 written with literals and comments that span lines (contents ending in / starting with a line break, blank lines,
+    # CR LF): the line count of P1 is its number of line breaks, P2's error line moves by exactly that
+    show, name = "\u09a6\u09c7\u0996\u09be\u0993", "\u09a8\u09be\u09ae"
+    nt = 0
+    for cnt in ["\u0995\n", "\n", "\u0995\n\u0996\n", "\u0995\r\n", "\u0995\n\n", "\u0995\n\u0996", "\n\u0995", "\u0995\r", "\u0995\n----\n"]:
+        for form in range(4):
+            if form == 0:
+                s1 = name + ' \u09aa\u09e7\u09b6 = "' + cnt + '";\n_' + show + " \u09aa\u09e7\u09b6;\n"
+            elif form == 1:
+                s1 = "#" + cnt + "#\n" + show + ' "\u09aa\u09e7";\n'
+            elif form == 2:
+                s1 = "_" + show + ' "' + cnt + '" + "' + cnt + '";\n'
+            else:
+                s1 = name + ' \u09aa\u09e7\u09a4 = ["' + cnt + '", "' + cnt + '"]; #' + cnt + "#\n" + show + " \u09aa\u09e7\u09a4;\n"
+            for b in (P2[4], P2[1]):
+                s2 = G.source(b, "lines")
+                out.append(C.Case("compose", [run_req(s1, spec=1), run_req(s2, spec=1), run_req(s1 + s2, spec=1)], cmp_run(line=True), compose_oracle,
+                                  info={"p1": s1, "p2": s2, "p1_lines": s1.count("\n"), "family": "multiline-literal"}))
+                nt += 1
+    stats["multiline_literal_pairs"] = nt
     # the one residue of P1's control flow that a P2 can observe: an else-less conditional whose branch ran leaves its
     # flag on the interpreter's stack for ever; a P2 that *begins* with a stray `অথবা` (alone: "অথবা without যদি") is then
     # taken for the else of that conditional and skipped.  KNOWN-FINDING C19-stray-else, identified by this input
